@@ -892,6 +892,9 @@ class Interp(object):
         pa.attrs['constants'] = dict(constants or {})
         pa.attrs['stride'] = {}
         pa.attrs['output_property_arrays'] = []
+        # C types of the properties (what get_particle_array gives: tag / pid int, gid unsigned int, everything else double) and the typed requests that were ignored
+        pa.attrs['types'] = dict((p, 'int' if p in ('tag', 'pid') else 'unsigned int' if p == 'gid' else 'double') for p in props)
+        pa.attrs['type_conflicts'] = []
         return pa
 
     def pa_attr(self, pa, attr):
@@ -910,14 +913,22 @@ class Interp(object):
             if not isinstance(name, str):
                 A['top'] = 'add_property with a computed name'
                 return None
+            ty = kwargs.get('type', args[1] if len(args) > 1 else None)
+            data = kwargs.get('data', args[3] if len(args) > 3 else None)
+            if name in A['properties'] and isinstance(ty, str) and A.get('types', {}).get(name) not in (None, ty):
+                # ParticleArray.add_property keeps the array (and so the type) of a property that exists: the type asked for is silently not what the array has
+                A.setdefault('type_conflicts', []).append((name, A['types'][name], ty, node, env.get('__rel__')))
+            elif name not in A['properties']:
+                A.setdefault('types', {})[name] = ty if isinstance(ty, str) else 'double'          # the default of the `type` parameter
             A['properties'][name] = Opaque('prop:%s' % name)
-            st = kwargs.get('stride', args[3] if len(args) > 3 else 1)
+            st = kwargs.get('stride', args[4] if len(args) > 4 else 1)
             if st != 1:
                 A['stride'][name] = st
             return None
         if attr == 'remove_property':
             A['properties'].pop(args[0], None)
             A['stride'].pop(args[0], None)
+            A.get('types', {}).pop(args[0], None)
             return None
         if attr == 'add_constant':
             name = kwargs.get('name', args[0] if args else None)
